@@ -4,6 +4,7 @@ import os
 import shutil
 
 from vf import common, emucheck, emucore, trace
+from checks import rtmeta_lib as RL
 
 LEVEL = "proof"
 
@@ -248,6 +249,564 @@ def run(chk):
                             "every call's ok/die is judged by the documented rules, rows 100+t and the PCF by an independent reconstruction, and everything is compared "
                             "with the extracted Coq model")
     emucheck.finish_corr(chk, corr)
+    try:
+        markjson_family(chk, build)
+    except Exception as e:  # noqa
+        import traceback
+        chk.notes.append("markjson family could not run: %r" % (e,))
+        chk.coverage["markjson_error"] = traceback.format_exc()[-1500:]
+        if not getattr(chk, "proof_broken", None):
+            chk.proof_broken = {"kind": "correspondence-harness", "error": repr(e)[:500]}
+
+
+# ====================================================================================================
+# family markjson: the JSON leg (coq/Rt/MarkJsonDefs.v).  (a) runtime end: ovni_mark_type / ovni_mark_label on the
+# real libovni, stream.json read back after every call and compared (member order included) with the tree of the
+# extracted model, die() <-> SIGABRT; (b) emulator end: stream.json files written by this check with well-formed and
+# malformed "ovni.mark" subtrees through the real ovniemu, verdict and PCF sections 100+t compared with
+# emu_types_of_trees / emu_pcf_of_trees.
+KNOWN_INT_KEY = "label-value-truncated-to-int"
+MJ_TITLES = ["phase", "it", "x y", "a.b", "q\"uote", "back\\slash", "T" * 511, "T" * 512, "T" * 700, "t\tab"]
+MJ_LABELS = ["init", "compute", "io wait", "l.dot", "L" * 511, "L" * 512, "x"]
+MJ_TYPES = [0, 1, 3, 7, 42, 99]
+MJ_VALUES = [1, 2, 7, 10, 2 ** 31 - 1, 2 ** 31, 2 ** 32 + 5, 2 ** 63 - 1]
+
+
+def _hexs(x):
+    return "N" if x is None else RL.hx(x)
+
+
+def mj_gen_prog(r, idx):
+    """one process, 1-2 threads; every call is followed by attr_flush so that the file is compared after EVERY call.
+    -> (Prog, plain) plain = no attribute call touches ovni.mark (the documented rules then decide every outcome)"""
+    nthr = r.range(1, 2)
+    ops = [(0, "I1,%s,%d" % (RL.hx("node1"), 700 + idx % 50))]
+    plain = True
+    bad_at = r.below(3) == 0       # one call that the documentation forbids, somewhere
+    seqs = []
+    for k in range(nthr):
+        tid = 800 + 2 * (idx % 40) + k
+        seq = [(k, "T%d" % tid), (k, "C%d,%d" % (k, k)), (k, "f")]
+        defined = {}
+        for _ in range(r.range(2, 10)):
+            c = r.below(100)
+            if c < 30:
+                t = r.choice([x for x in MJ_TYPES if x not in defined] or [5])
+                if t in defined:
+                    continue
+                title = r.choice(MJ_TITLES)
+                flags = r.choice([0, 1, 0, 1, 2, 3, -1, 1 << 40, (1 << 40) + 1])
+                seq.append((k, "m%d,%d,%s" % (t, flags, RL.hx(title))))
+                defined[t] = set()
+            elif c < 65 and defined:
+                t = r.choice(sorted(defined))
+                v = r.choice([x for x in MJ_VALUES if x not in defined[t]] or [11])
+                if v in defined[t]:
+                    continue
+                seq.append((k, "l%d,%d,%s" % (t, v, RL.hx(r.choice(MJ_LABELS)))))
+                defined[t].add(v)
+            elif c < 80:
+                seq.append((k, r.choice(["s%s,%s" % (RL.hx("app.name"), RL.hx("x")), "d%s,%d" % (RL.hx("nosv.n"), r.below(9)),
+                                         "b%s,1" % RL.hx("mark.1.title"), "s%s,%s" % (RL.hx("markers.ovni.mark"), RL.hx("y")),
+                                         "j%s,%s,%s" % (RL.hx("u"), RL.hx('{"ovni":{"mark":1}}'), RL.enc(("o", [("ovni", ("o", [("mark", ("i", 1))]))])))])))
+            elif c < 92:
+                # attribute calls that shape ovni.mark by hand (outside the documented protocol; the models must still agree)
+                plain = False
+                t = r.choice(MJ_TYPES)
+                hand = ("o", [("title", ("s", "hand")), ("chan_type", ("s", r.choice(["single", "stack", "other"])))])
+                seq.append((k, r.choice([
+                    "s%s,%s" % (RL.hx("ovni.mark"), RL.hx("x")),
+                    "d%s,3" % RL.hx("ovni.mark.%d" % t),
+                    "s%s,%s" % (RL.hx("ovni.mark.%d.labels" % t), RL.hx("x")),
+                    "d%s,1" % RL.hx("ovni.mark.%d.labels.%d" % (t, r.choice([1, 2, 7]))),
+                    "s%s,%s" % (RL.hx("ovni.mark.%d.labels.07" % t), RL.hx("seven")),
+                    "j%s,%s,%s" % (RL.hx("ovni.mark.%d" % t), RL.hx(RL.text(hand)), RL.enc(hand)),
+                    "j%s,%s,%s" % (RL.hx("ovni.mark"), RL.hx("[]"), "a0."),
+                    "b%s,1" % RL.hx("ovni.mark.%d.title.x" % t),
+                    "s%s,%s" % (RL.hx("ovni.mark.0%d.title" % t), RL.hx("zero-padded key"))])))
+                if r.chance(1, 2):
+                    # ... and a mark call that meets it
+                    seq.append((k, "f"))
+                    seq.append((k, r.choice(["m%d,0,%s" % (t, RL.hx("after")), "l%d,%d,%s" % (t, r.choice([1, 2, 7]), RL.hx("after"))])))
+            else:
+                seq.append((k, "gj%s" % RL.hx("ovni")))
+            seq.append((k, "f"))
+        if bad_at and r.chance(2, 3):
+            t0 = r.choice(sorted(defined)) if defined else 3
+            badop = r.choice([
+                "m%d,0,%s" % (t0, RL.hx("again")), "m-1,0,%s" % RL.hx("t"), "m100,1,%s" % RL.hx("t"), "m2147483647,0,%s" % RL.hx("t"),
+                "m-2147483648,0,%s" % RL.hx("t"), "m5,0,N", "m5,1,z",
+                "l%d,0,%s" % (t0, RL.hx("zero")), "l%d,-1,%s" % (t0, RL.hx("neg")), "l%d,-9223372036854775808,%s" % (t0, RL.hx("min")),
+                "l55,1,%s" % RL.hx("undefined type"), "l%d,1,N" % t0, "l%d,1,z" % t0, "l-1,1,%s" % RL.hx("x"), "l100,1,%s" % RL.hx("x"),
+                "l%d,%d,%s" % (t0, sorted(defined[t0])[0], RL.hx("second label")) if defined and defined.get(t0) else "l56,2,%s" % RL.hx("u")])
+            seq.insert(r.range(3, len(seq)), (k, badop))
+            bad_at = False
+        seq.append((k, "Xe"))
+        seqs.append(seq)
+    merged = RL.interleave(r, seqs)
+    ops += merged + [(merged[-1][0], "E")]
+    return RL.Prog(ops, "markjson:" + ("plain" if plain else "hand-shaped"), expect_conf=None), plain
+
+
+def mj_doc_rules(p):
+    """ok/die of every mark call by the documented rules (mark.md, ovni.h), independent of the model; None for other calls"""
+    out = []
+    defs = {}
+    for slot, o in p.ops:
+        if o[0] == "m":
+            a = o[1:].split(",")
+            t = int(a[0])
+            d = defs.setdefault(slot, {})
+            if not (0 <= t < 100) or a[2] in ("N", "z") or t in d:
+                out.append("die")
+            else:
+                d[t] = set()
+                out.append("ok")
+        elif o[0] == "l":
+            a = o[1:].split(",")
+            t, v = int(a[0]), int(a[1])
+            d = defs.setdefault(slot, {})
+            if not (0 <= t < 100) or v <= 0 or a[2] in ("N", "z") or t not in d or v in d[t]:
+                out.append("die")
+            else:
+                d[t].add(v)
+                out.append("ok")
+        else:
+            out.append(None)
+    return out
+
+
+def mj_registered(p):
+    """what the threads of a completed plain program registered, read off the CALLS (not off the files):
+    [{type: (title, stack, {value: label})} per thread slot, in slot order]"""
+    per = {}
+    for slot, o in p.ops:
+        if o[0] == "m":
+            a = o[1:].split(",")
+            per.setdefault(slot, {})[int(a[0])] = (RL.unhx(a[2]), bool(int(a[1]) & 1), {})
+        elif o[0] == "l":
+            a = o[1:].split(",")
+            per.setdefault(slot, {})[int(a[0])][2][int(a[1])] = RL.unhx(a[2])
+    return [per[k] for k in sorted(per)]
+
+
+def mj_marks_of_text(txt):
+    """independent reading of one well-formed stream.json: {type: (title, stack, {value: label})}"""
+    m = json.loads(txt).get("ovni", {}).get("mark", {})
+    return {int(k): (v["title"], v["chan_type"] == "stack", {int(a): b for a, b in v.get("labels", {}).items()}) for k, v in m.items()}
+
+
+def mj_union(per_thread):
+    """property text: types and labels of different threads merge when they agree -> (dict or None on a conflict)"""
+    res = {}
+    for d in per_thread:
+        for t, (title, stack, labels) in d.items():
+            o = res.setdefault(t, (title, stack, {}))
+            if o[0] != title or o[1] != stack:
+                return None
+            for v, l in labels.items():
+                if o[2].setdefault(v, l) != l:
+                    return None
+    return res
+
+
+def mj_parse_P(ans):
+    """answer of the oracle's P command -> ("refused", None) | ("ok", {type: (title, {value: label})}) | ("pcf-refused", None)"""
+    f = ans.split(" ")
+    if f[0] == "refused":
+        return "refused", None
+    if f[0] != "types":
+        raise RuntimeError("oracle P: %r" % ans[:200])
+    if f[3] == "refused":
+        return "pcf-refused", None
+    res = {}
+    if f[3] != "-":
+        for sec in f[3].split(";"):
+            ty, ti, ls = sec.split(":")
+            d = {}
+            if ls:
+                for e in ls.split(","):
+                    v, h = e.split("=")
+                    d[int(v)] = RL.unhx(h)
+            res[int(ty) - 100] = (RL.unhx(ti), d)
+    return "ok", res
+
+
+def mj_pcf(text):
+    """pcf_marks keeping trailing blanks out of the comparison the same way on both sides"""
+    return {t: (ti.strip(), {v: l.strip() for v, l in ls.items()}) for t, (ti, ls) in pcf_marks(text).items()}
+
+
+def mj_norm(d):
+    return {t: (ti.strip(), {v: l.strip() for v, l in ls.items()}) for t, (ti, ls) in d.items()}
+
+
+def mj_thread_text(ctx, tid, pid, ncpus, mark):
+    """stream.json of a finished thread with the given ovni.mark subtree (a tree of rtmeta_lib) or none"""
+    ovni = [("lib", ("o", [("version", ("s", ctx.cfg_text[0])), ("commit", ("s", ctx.cfg_text[1]))])), ("part", ("s", "thread")),
+            ("tid", ("i", tid)), ("pid", ("i", pid)), ("loom", ("s", "node1")), ("app_id", ("i", 1)),
+            ("require", ("o", [("ovni", ("s", ctx.cfg_text[2]))]))]
+    if mark is not None:
+        ovni.append(("mark", mark))
+    if ncpus:
+        ovni.append(("loom_cpus", ("a", [("o", [("index", ("i", i)), ("phyid", ("i", i))]) for i in range(ncpus)])))
+    ovni.append(("finished", ("i", 1)))
+    return ("o", [("version", ("i", 3)), ("ovni", ("o", ovni))])
+
+
+def S(x):
+    return ("s", x)
+
+
+def mj_type(title="phase", chan="single", labels=None, extra=None, order=None):
+    m = []
+    if title is not None:
+        m.append(("title", title if isinstance(title, tuple) else S(title)))
+    if chan is not None:
+        m.append(("chan_type", chan if isinstance(chan, tuple) else S(chan)))
+    if labels is not None:
+        m.append(("labels", labels if (isinstance(labels, tuple) and labels[0] != "o") or isinstance(labels, tuple) else labels))
+    if extra:
+        m.extend(extra)
+    if order == "rev":
+        m.reverse()
+    return ("o", m)
+
+
+def mj_labels(pairs):
+    return ("o", [(str(k), v if isinstance(v, tuple) else S(v)) for k, v in pairs])
+
+
+def mj_fixed_cases():
+    """(class, wellformed?, [mark subtree per thread]); wellformed = what the runtime could have written"""
+    L = mj_labels
+    T = mj_type
+    ok1 = ("o", [("3", T("phase", "stack", L([(1, "init"), (2, "compute")]))), ("7", T("it", "single"))])
+    out = [
+        ("wf:one-thread", True, [ok1]),
+        ("wf:no-marks", True, [None, None]),
+        ("wf:empty-mark-object", True, [("o", [])]),
+        ("wf:agree-overlap", True, [ok1, ("o", [("3", T("phase", "stack", L([(2, "compute"), (9, "io")]))), ("1", T("q", "single"))])]),
+        ("wf:second-thread-only", True, [None, ok1]),
+        ("wf:title-conflict", True, [ok1, ("o", [("3", T("other", "stack"))])]),
+        ("wf:title-prefix-conflict", True, [ok1, ("o", [("3", T("phas", "stack"))])]),
+        ("wf:chan-conflict", True, [ok1, ("o", [("3", T("phase", "single"))])]),
+        ("wf:label-conflict", True, [ok1, ("o", [("3", T("phase", "stack", L([(2, "other")])))])]),
+        ("wf:label-conflict-third-thread", True, [ok1, None, ("o", [("3", T("phase", "stack", L([(1, "init"), (2, "computE")])))])]),
+        ("wf:title-511", True, [("o", [("3", T("T" * 511, "single", L([(1, "L" * 511)])))])]),
+        ("wf:int-max-label", True, [("o", [("3", T("phase", "single", L([(2 ** 31 - 1, "top")])))])]),
+        ("limit:title-512", False, [("o", [("3", T("T" * 512, "single"))])]),
+        ("limit:label-512", False, [("o", [("3", T("t", "single", L([(1, "L" * 512)])))])]),
+        ("limit:title-512-second-thread", False, [ok1, ("o", [("3", T("T" * 512, "stack"))])]),
+        # beyond int: the finding
+        ("big:two-labels-equal-mod-2^32", True, [("o", [("3", T("colour", "single", L([(5, "five"), (2 ** 32 + 5, "big")])))])]),
+        ("big:one-label-2^32+5", True, [("o", [("3", T("colour", "single", L([(2 ** 32 + 5, "big")])))])]),
+        ("big:label-2^31", True, [("o", [("3", T("colour", "single", L([(2 ** 31, "big")])))])]),
+        ("big:label-2^63-1", True, [("o", [("3", T("colour", "single", L([(2 ** 63 - 1, "max")])))])]),
+        # keys strtol accepts
+        ("key:07", False, [("o", [("07", T())])]),
+        ("key:+7", False, [("o", [("+7", T())])]),
+        ("key:space7", False, [("o", [(" 7", T())])]),
+        ("key:tab-newline-7", False, [("o", [("\t\n7", T())])]),
+        ("key:-0", False, [("o", [("-0", T())])]),
+        ("key:7-and-07-agree", False, [("o", [("7", T()), ("07", T())])]),
+        ("key:7-and-07-disagree", False, [("o", [("7", T()), ("07", T("other"))])]),
+        ("key:7-and-+7-two-threads", False, [("o", [("7", T("phase", "single", L([(1, "a")])))]), ("o", [("+7", T("phase", "single", L([("01", "a"), ("+2", "b")])))])]),
+        # keys it refuses
+        ("key:7x", False, [("o", [("7x", T())])]),
+        ("key:empty", False, [("o", [("", T())])]),
+        ("key:x", False, [("o", [("x", T())])]),
+        ("key:0x7", False, [("o", [("0x7", T())])]),
+        ("key:7space", False, [("o", [("7 ", T())])]),
+        ("key:7.0", False, [("o", [("7.0", T())])]),
+        ("key:1e1", False, [("o", [("1e1", T())])]),
+        ("key:100", False, [("o", [("100", T())])]),
+        ("key:-1", False, [("o", [("-1", T())])]),
+        ("key:overflow", False, [("o", [("99999999999999999999", T())])]),
+        ("key:-", False, [("o", [("-", T())])]),
+        ("key:bad-after-good", False, [("o", [("3", T()), ("x", T())])]),
+        # the member
+        ("member:string", False, [("o", [("3", S("phase"))])]),
+        ("member:number", False, [("o", [("3", ("i", 1))])]),
+        ("member:array", False, [("o", [("3", ("a", []))])]),
+        ("member:null", False, [("o", [("3", ("n",))])]),
+        ("member:empty-object", False, [("o", [("3", ("o", []))])]),
+        ("member:extra-members", False, [("o", [("3", T(extra=[("colour", S("red")), ("n", ("i", 3))]))])]),
+        ("member:reversed-order", False, [("o", [("3", T("phase", "stack", L([(1, "a")]), order="rev"))])]),
+        # title / chan_type
+        ("title:missing", False, [("o", [("3", T(title=None))])]),
+        ("title:number", False, [("o", [("3", T(title=("i", 5)))])]),
+        ("title:null", False, [("o", [("3", T(title=("n",)))])]),
+        ("title:object", False, [("o", [("3", T(title=("o", [])))])]),
+        ("title:empty", False, [("o", [("3", T(title=""))])]),
+        ("chan:missing", False, [("o", [("3", T(chan=None))])]),
+        ("chan:Stack", False, [("o", [("3", T(chan="Stack"))])]),
+        ("chan:empty", False, [("o", [("3", T(chan=""))])]),
+        ("chan:single-space", False, [("o", [("3", T(chan="single "))])]),
+        ("chan:number", False, [("o", [("3", T(chan=("i", 1)))])]),
+        ("chan:true", False, [("o", [("3", T(chan=("t",)))])]),
+        ("chan:stacked", False, [("o", [("3", T(chan="stacked"))])]),
+        # labels
+        ("labels:array", False, [("o", [("3", T(labels=("a", [])))])]),
+        ("labels:string", False, [("o", [("3", T(labels=S("x")))])]),
+        ("labels:null", False, [("o", [("3", T(labels=("n",)))])]),
+        ("labels:empty-object", False, [("o", [("3", T(labels=("o", [])))])]),
+        ("labels:key-0", False, [("o", [("3", T(labels=L([(0, "zero")])))])]),
+        ("labels:key--3", False, [("o", [("3", T(labels=L([(-3, "neg")])))])]),
+        ("labels:key-+5", False, [("o", [("3", T(labels=L([("+5", "five")])))])]),
+        ("labels:key-05-and-5-agree", False, [("o", [("3", T(labels=L([("5", "five"), ("05", "five")])))])]),
+        ("labels:key-05-and-5-disagree", False, [("o", [("3", T(labels=L([("5", "five"), ("05", "FIVE")])))])]),
+        ("labels:key-x", False, [("o", [("3", T(labels=L([("x", "five")])))])]),
+        ("labels:key-empty", False, [("o", [("3", T(labels=L([("", "five")])))])]),
+        ("labels:key-5x", False, [("o", [("3", T(labels=L([("5x", "five")])))])]),
+        ("labels:key-overflow", False, [("o", [("3", T(labels=L([("9223372036854775808", "five")])))])]),
+        ("labels:key-min", False, [("o", [("3", T(labels=L([("-9223372036854775808", "min")])))])]),
+        ("labels:value-number", False, [("o", [("3", T(labels=L([(5, ("i", 5))])))])]),
+        ("labels:value-null", False, [("o", [("3", T(labels=L([(5, ("n",))])))])]),
+        ("labels:value-object", False, [("o", [("3", T(labels=L([(5, ("o", []))])))])]),
+        ("labels:value-empty-string", False, [("o", [("3", T(labels=L([(5, "")])))])]),
+        ("labels:bad-after-good", False, [("o", [("3", T(labels=L([(1, "a"), (2, ("i", 2))])))])]),
+        ("labels:minus-one-and-4294967295", False, [("o", [("3", T(labels=L([(-1, "a"), (4294967295, "b")])))])]),
+        # ovni.mark itself
+        ("mark:string", False, [S("x")]),
+        ("mark:number", False, [("i", 3)]),
+        ("mark:array", False, [("a", [])]),
+        ("mark:null", False, [("n",)]),
+        ("mark:true", False, [("t",)]),
+        ("mark:string-then-good-thread", False, [S("x"), ok1]),
+    ]
+    return out
+
+
+def mj_random_case(r):
+    """1-3 threads with well-formed marks (as the runtime writes them) that agree or conflict"""
+    nthr = r.range(1, 3)
+    world = {}
+    for t in r.shuffle(list(MJ_TYPES))[:r.range(1, 4)]:
+        world[t] = ("title%d" % t, r.choice(["single", "stack"]), {v: "lab%d_%d" % (t, v) for v in (1, 2, 3, 7, 40, 2 ** 31 - 1)})
+    conflict = r.choice([None, None, None, "title", "chan", "label"])
+    marks = []
+    for k in range(nthr):
+        if r.chance(1, 6):
+            marks.append(None)
+            continue
+        mem = []
+        for t in r.shuffle(sorted(world)):
+            if r.chance(1, 3):
+                continue
+            title, chan, labs = world[t]
+            vs = [v for v in r.shuffle(sorted(labs)) if r.chance(1, 2)]
+            pairs = [(v, labs[v]) for v in vs]
+            if k > 0 and conflict == "title" and r.chance(1, 2):
+                title = title + "x"
+            if k > 0 and conflict == "chan" and r.chance(1, 2):
+                chan = "single" if chan == "stack" else "stack"
+            if k > 0 and conflict == "label" and pairs and r.chance(1, 2):
+                pairs[0] = (pairs[0][0], pairs[0][1] + "!")
+            mem.append((str(t), mj_type(title, chan, mj_labels(pairs) if (pairs or r.chance(1, 4)) else None)))
+        marks.append(("o", mem))
+    return ("wf:random" + (":" + conflict if conflict else ""), True, marks)
+
+
+def markjson_family(chk, build):
+    import struct
+    ctx = RL.setup(chk, build, build.libdir)
+    rng = chk.rng.fork("markjson")
+    stats = {"rt_programs": 0, "rt_calls": 0, "rt_mark_calls": 0, "rt_files_compared": 0, "rt_model_die": 0, "rt_real_abort": 0, "rt_doc_rules_checked": 0,
+             "rt_completed_emulated": 0, "emu_cases": 0, "emu_accepted": 0, "emu_refused": 0, "emu_pcf_compared": 0, "emu_wellformed_judged": 0}
+    mism = []
+    wd = trace.workdir("ovni-verif-markjson-")
+    try:
+        # ---------------------------------------------------------------- (a) runtime end
+        progs = [mj_gen_prog(rng.fork("p%d" % i), i) for i in range(chk.budget(120, 1200))]
+        # fixed: the finding's programs and the examples of the Coq file
+        fx = [[(0, "I1,%s,700" % RL.hx("node1")), (0, "T801"), (0, "C0,0"), (0, "m3,0,%s" % RL.hx("colour")), (0, "f"), (0, "l3,5,%s" % RL.hx("five")), (0, "f"),
+               (0, "l3,4294967301,%s" % RL.hx("big")), (0, "f"), (0, "Xe"), (0, "E")],
+              [(0, "I1,%s,700" % RL.hx("node1")), (0, "T801"), (0, "C0,0"), (0, "m3,0,%s" % RL.hx("colour")), (0, "f"), (0, "l3,4294967301,%s" % RL.hx("big")), (0, "f"),
+               (0, "Xe"), (0, "E")]]
+        progs += [(RL.Prog(o, "markjson:plain", expect_conf=None), True) for o in fx]
+        chunks = [progs[i:i + 30] for i in range(0, len(progs), 30)]
+
+        def do_chunk(ic):
+            ci, chunk = ic
+            base = os.path.join(wd, "rt%d" % ci)
+            os.makedirs(base, exist_ok=True)
+            lines = ["M %s %s %s %s %s" % (ctx.cfg[0], ctx.cfg[1], ctx.cfg[2], p.script(), os.path.join(base, "tr%d" % i, "ovni")) for i, (p, _) in enumerate(chunk)]
+            impl = common.batch([ctx.hx, base], lines, timeout=900)
+            modl = common.batch(ctx.oracle, ["N " + " ".join(l.split(" ")[1:5]) for l in lines], timeout=900)
+            out = []
+            for i, ((p, plain), il, ml) in enumerate(zip(chunk, impl, modl)):
+                im = RL.parse_impl(il)
+                mo = RL.parse_model(ml)
+                emu = None
+                td = os.path.join(base, "tr%d" % i, "ovni")
+                if im[0] == "done":
+                    finals = RL.read_finals(td)
+                    rc, so, se = trace.run_tool(build, "ovniemu", [], td, timeout=120)
+                    pcfs = {}
+                    for fn in ("thread.pcf", "cpu.pcf"):
+                        try:
+                            pcfs[fn] = open(os.path.join(td, fn), encoding="latin1").read()
+                        except OSError:
+                            pass
+                    emu = (rc, se[-1200:], pcfs, finals)
+                out.append((p, plain, im, mo, emu))
+            shutil.rmtree(base, ignore_errors=True)
+            return out
+        pq = []
+        for res in trace.pmap(do_chunk, list(enumerate(chunks)), workers=4):
+            for p, plain, im, mo, emu in res:
+                chk.case(("markjson-rt", p.fingerprint()))
+                chk.count(p.cls)
+                stats["rt_programs"] += 1
+                stats["rt_calls"] += len(p.ops)
+                stats["rt_mark_calls"] += sum(1 for _, o in p.ops if o[0] in "ml")
+                stats["rt_files_compared"] += sum(len(fl) for _, fl in im[2])
+                died = any(e[0] == "die" for e in mo[1])
+                stats["rt_model_die"] += died
+                stats["rt_real_abort"] += im[0] == "abort"
+                diff = RL.compare(p, im, mo)
+                if diff == "OUT-OF-DOMAIN":
+                    diff = "the model answers out-of-domain"
+                if diff:
+                    mism.append({"end": "runtime", "class": p.cls, "script": p.short(), "calls": p.readable(), "difference": diff})
+                # judged independently: the documented refusals, on the REAL outcome
+                if plain:
+                    exp = mj_doc_rules(p)
+                    nret = len(im[2])
+                    for i, e in enumerate(exp):
+                        if e is None:
+                            continue
+                        stats["rt_doc_rules_checked"] += 1
+                        if e == "die" and i < nret:
+                            chk.violation("markjson-runtime-accepts:%s" % p.ops[i][1].split(",")[0][:20], "libovni accepts `%s`, the documented rules refuse it" % RL.describe(p.ops[i][1]),
+                                          {"script": p.short(), "calls": p.readable()})
+                            break
+                        if e == "ok" and i == nret and im[0] == "abort":
+                            chk.violation("markjson-runtime-refuses:%s" % p.fingerprint(), "libovni aborts in `%s`, a call the documented rules allow" % RL.describe(p.ops[i][1]),
+                                          {"script": p.short(), "calls": p.readable()})
+                            break
+                        if i >= nret:
+                            break
+                if emu is not None:
+                    pq.append((p, plain, emu))
+        # completed programs: the emulator on the trace the real runtime wrote vs the model on the REAL trees
+        if pq:
+            qs = []
+            for p, plain, (rc, se, pcfs, finals) in pq:
+                trees = [RL.enc(RL.from_text(finals[k])) for k in sorted(finals, key=lambda k: k[2])]
+                qs.append("P " + " ".join(trees))
+            ans = common.batch(ctx.oracle, qs, timeout=600)
+            for (p, plain, (rc, se, pcfs, finals)), a in zip(pq, ans):
+                stats["rt_completed_emulated"] += 1
+                verdict, want = mj_parse_P(a)
+                if (rc == 0) != (verdict == "ok"):
+                    mism.append({"end": "runtime->emulator", "class": p.cls, "script": p.short(), "difference": "ovniemu exit %s, model %s" % (rc, verdict), "stderr": se[-400:]})
+                elif rc == 0:
+                    for fn, txt in pcfs.items():
+                        if mj_pcf(txt) != mj_norm(want):
+                            mism.append({"end": "runtime->emulator", "class": p.cls, "script": p.short(), "difference": "%s: ovniemu %s, model %s" % (fn, mj_pcf(txt), mj_norm(want))})
+                            break
+                if plain:
+                    # property text on the real output: the labels registered for the type appear
+                    reg = mj_union(mj_registered(p))
+                    if reg is not None:
+                        wantp = mj_norm({t: (ti, ls) for t, (ti, st, ls) in reg.items()})
+                        big = any(v >= 2 ** 31 for _, (_, ls) in wantp.items() for v in ls)
+                        long_ = any(len(ti) >= 512 or any(len(l) >= 512 for l in ls.values()) for _, (ti, ls) in wantp.items())
+                        got = mj_pcf(pcfs.get("thread.pcf", "")) if rc == 0 else None
+                        if long_:
+                            chk.count("markjson:runtime-title-or-label-of-512+ (refused in emulation: %s)" % (rc != 0))
+                        elif got != wantp:
+                            key = KNOWN_INT_KEY if big else "markjson-labels:%s" % p.fingerprint()
+                            chk.violation(key, "a correct mark program: the threads registered %s, ovniemu %s" % (
+                                str(wantp)[:300], ("exits %s: %s" % (rc, emucore._first_error(se))) if rc != 0 else ("writes %s" % str(got)[:300])),
+                                {"script": p.short(), "calls": p.readable()})
+
+        # ---------------------------------------------------------------- (b) emulator end
+        cases = mj_fixed_cases() + [mj_random_case(rng.fork("e%d" % i)) for i in range(chk.budget(60, 700))]
+
+        def do_case(ic):
+            i, (cls, wf, marks) = ic
+            d = os.path.join(wd, "e%d" % i, "ovni")
+            tr = trace.Trace()
+            trees = []
+            n = len(marks)
+            for k, mk in enumerate(marks):
+                tid = 901 + k
+                tt = mj_thread_text(ctx, tid, 900, n if k == 0 else 0, mk)
+                trees.append(tt)
+                evs = [trace.ev_bytes("OHx", 100 + k, struct.pack("<iiQ", k, tid, 0)), trace.ev_bytes("OHe", 200 + k)]
+                tr.add_thread("node1", 900, tid, RL.text(tt).encode("latin1"), events=evs)
+            tr.write(d)
+            rc, so, se = trace.run_tool(build, "ovniemu", [], d, timeout=120)
+            pcfs = {}
+            for fn in ("thread.pcf", "cpu.pcf"):
+                try:
+                    pcfs[fn] = open(os.path.join(d, fn), encoding="latin1").read()
+                except OSError:
+                    pass
+            shutil.rmtree(os.path.join(wd, "e%d" % i), ignore_errors=True)
+            return rc, se[-1500:], pcfs, trees
+        eres = trace.pmap(do_case, list(enumerate(cases)), workers=4)
+        ans = common.batch(ctx.oracle, ["P " + " ".join(RL.enc(t) for t in trees) for (_, _, _, trees) in eres], timeout=600)
+        for (cls, wf, marks), (rc, se, pcfs, trees), a in zip(cases, eres, ans):
+            chk.case(("markjson-emu", cls, RL.enc(trees[-1])[:4000], len(trees)))
+            chk.count("markjson-emu:" + cls.split(":")[0])
+            stats["emu_cases"] += 1
+            stats["emu_accepted" if rc == 0 else "emu_refused"] += 1
+            verdict, want = mj_parse_P(a)
+            desc = {"class": cls, "ovni.mark of each thread": [None if m is None else RL.text(m)[:600] for m in marks]}
+            if rc != 0 and "mark" not in se:
+                mism.append({"end": "emulator", "case": desc, "difference": "ovniemu fails outside mark.c: %s" % se[-300:]})
+                continue
+            if (rc == 0) != (verdict == "ok"):
+                mism.append({"end": "emulator", "case": desc, "difference": "ovniemu exit %s (%s), model %s" % (rc, emucore._first_error(se), verdict)})
+            elif rc == 0:
+                for fn in ("thread.pcf", "cpu.pcf"):
+                    stats["emu_pcf_compared"] += 1
+                    if mj_pcf(pcfs.get(fn, "")) != mj_norm(want):
+                        mism.append({"end": "emulator", "case": desc, "difference": "%s: ovniemu %s, model %s" % (fn, str(mj_pcf(pcfs.get(fn, "")))[:400], str(mj_norm(want))[:400])})
+                        break
+            if wf:
+                # the property text, on metadata the runtime can write: agreeing definitions merge and appear, conflicts are refused
+                stats["emu_wellformed_judged"] += 1
+                per = [mj_marks_of_text(RL.text(t)) for t in trees]
+                reg = mj_union(per)
+                key = common.hashlib.md5(repr(desc).encode()).hexdigest()[:12]
+                if reg is None:
+                    if rc == 0:
+                        chk.violation("markjson-accepts-conflict:" + key, "ovniemu accepts threads whose mark definitions conflict", desc)
+                else:
+                    wantp = mj_norm({t: (ti, ls) for t, (ti, st, ls) in reg.items()})
+                    big = any(v >= 2 ** 31 for _, (_, ls) in wantp.items() for v in ls)
+                    got = mj_pcf(pcfs.get("thread.pcf", "")) if rc == 0 else None
+                    if got != wantp or (rc == 0 and mj_pcf(pcfs.get("cpu.pcf", "")) != wantp):
+                        chk.violation(KNOWN_INT_KEY if big else "markjson-labels:" + key,
+                                      "mark metadata as the runtime writes it, registered %s: ovniemu %s" % (
+                                          str(wantp)[:300], ("exits %s: %s" % (rc, emucore._first_error(se))) if rc != 0 else ("writes %s" % str(got)[:300])), desc)
+        chk.sample({"markjson runtime program": progs[0][0].readable(30)})
+        chk.sample({"markjson emulator case": cases[3][0], "ovni.mark": [None if m is None else RL.text(m) for m in cases[3][2]]})
+    finally:
+        shutil.rmtree(wd, ignore_errors=True)
+    chk.coverage["markjson"] = stats
+    chk.coverage["markjson_rule"] = (
+        "(a) runtime end: generated programs of 1-2 threads (ovni_mark_type with flags 0/1/2/3/-1/2^40(+1), titles with dots, quotes, 511/512/700 bytes; ovni_mark_label with "
+        "values up to 2^63-1; user attributes; attribute calls that shape ovni.mark by hand: mark not an object, a type that is a number, labels that is a string, a hand-made type, "
+        "a zero-padded key; at most one forbidden call: redefinition, type -1/100/INT_MAX/INT_MIN, NULL/empty title, label value 0/-1/INT64_MIN, undefined type, NULL/empty label, "
+        "second label) run on the real libovni through harness/rtmeta_drv.c; stream.json after EVERY call (order of members included) and die() vs SIGABRT compared with the extracted "
+        "mrun; the documented refusals judged on the real outcome; completed programs: real ovniemu on the trace vs emu_pcf_of_trees on the REAL trees, and the registered labels "
+        "against the PCF; (b) emulator end: %d fixed + generated stream.json sets written by this check (1-3 threads; keys 07/+7/ 7/-0/7x/''/0x7/100/-1/overflow, member kinds, "
+        "title/chan_type/labels of every JSON type, label keys 0/-3/+5/05/x/overflow, 511/512-byte strings, ovni.mark of every JSON type, values beyond int, agreeing and conflicting "
+        "threads) through the real ovniemu: verdict and the PCF sections 100+t of thread.pcf and cpu.pcf vs the extracted emu_types_of_trees/emu_pcf_of_trees; metadata the runtime "
+        "can write is also judged against the property text (merge and appear, conflicts refused)" % len(mj_fixed_cases()))
+    if mism:
+        chk.coverage["markjson_disagreements"] = mism[:10]
+        if not [v for v in chk.violations if str(v[0]).startswith("markjson-")]:
+            chk.violation("broken-correspondence:markjson", "the mark-metadata model and the real code disagree on %d cases, none of which breaks the property" % len(mism),
+                          {"correspondence": "extracted MarkJsonDefs (mrun / emu_pcf_of_trees) vs libovni.so and ovniemu", "disagreements": mism[:12]}, found_input=False)
+        else:
+            chk.notes.append("markjson: model and real code also disagree on %d cases (first: %s)" % (len(mism), str(mism[0]["difference"])[:300]))
 
 
 def expected_pcf(s):
